@@ -353,6 +353,32 @@ func flushViolation(name string) {
 	fmt.Printf("  detail: %s [%s] %s\n", f.Check, f.Key, strings.ReplaceAll(f.Msg, "\n", "\n    "))
 }
 
+// SetCurrent records the case about to be executed in $VERIF_WD/current.json so
+// that the driver can turn a process death (fatal error, unrecoverable panic)
+// into a replayable violation. check is the sub-check name.
+func SetCurrent(check string, c interface{}) {
+	wd := os.Getenv("VERIF_WD")
+	if wd == "" {
+		return
+	}
+	doc := map[string]interface{}{
+		"property": propertyID, "tier": tier, "seed": baseSeed, "shard": shard,
+		"failure": &Failure{Check: check, Key: "process-death", Msg: "the test process died while executing this case", Case: c},
+	}
+	b, err := json.Marshal(doc)
+	if err != nil {
+		return
+	}
+	os.WriteFile(filepath.Join(wd, "current.json"), b, 0o644)
+}
+
+// ClearCurrent removes the marker written by SetCurrent.
+func ClearCurrent() {
+	if wd := os.Getenv("VERIF_WD"); wd != "" {
+		os.Remove(filepath.Join(wd, "current.json"))
+	}
+}
+
 // LoadReplay reads a replay file and returns the failure record's check name
 // and raw case.
 func LoadReplay(path string) (check string, rawCase json.RawMessage, err error) {
